@@ -164,7 +164,7 @@ def run(ctx):
             ctx.sample({"profile": profile, "summary": gspec.summary(sp),
                         "spec_modules_head": repr(norm["modules"][:1])[:600]})
 
-    for case in ctx.cases("spec", ctx.params.get("n_spec", 400)):
+    for case in ctx.cases("spec", int(ctx.params.get("n_spec", 400) * (0.15 if ctx.params.get("config") == "python" else 1))):
         ctx.run_case(case, one)
     for u in contract.unmapped_schema_constants(gtirb):
         ctx.note("schema enum constant without a contract row: " + u)
